@@ -434,6 +434,29 @@ def _fresh(v):
     return v
 
 
+def as_other_mapping(v, flavour):
+    """The same JSON value with every object turned into a dict subclass
+    filled in reverse order (what a caller who builds metadata with
+    OrderedDict / defaultdict hands over)."""
+    import collections
+
+    if isinstance(v, dict):
+        items = [(k, as_other_mapping(x, flavour))
+                 for k, x in reversed(list(v.items()))]
+
+        if flavour == 0:
+            return collections.OrderedDict(items)
+
+        d = collections.defaultdict(list)
+        d.update(items)
+        return d
+
+    if isinstance(v, list):
+        return [as_other_mapping(x, flavour) for x in v]
+
+    return v
+
+
 def call_writer(writer, op, kw):
     """Apply one program call to a DiffXWriter."""
     # the writer gets its own copies: what the program says was passed
@@ -471,6 +494,10 @@ def call_writer(writer, op, kw):
 
     if op == 'meta':
         md = kw.pop('metadata')
+        flavour = len(repr(md)) % 4
+
+        if flavour < 2 and isinstance(md, dict):
+            md = as_other_mapping(md, flavour)
 
         if positional and 'line_endings' not in kw:
             return writer.write_meta(md, kw.get('encoding'),
